@@ -75,7 +75,10 @@ pub(crate) fn parse_identifier(source: &str) -> TemporalResult<TimeZone> {
     let mut cursor = source.chars().peekable();
     if let Some(offset) = parse_offset(&mut cursor)? {
         return Ok(TimeZone::UtcOffset(UtcOffset(offset)));
-    } else if parse_iana_component(&mut cursor) {
+    } else if parse_iana_component(&mut cursor)
+        // TimeZoneIANANameComponent: ... but not one of `.` or `..`
+        && !source.split('/').any(|part| part == "." || part == "..")
+    {
         return Ok(TimeZone::IanaIdentifier(source.to_owned()));
     }
     Err(TemporalError::range().with_message("Invalid TimeZone Identifier"))
@@ -196,7 +199,8 @@ fn is_slash(ch: &char) -> bool {
 }
 
 fn is_tz_leading_char(ch: &char) -> bool {
-    ch.is_alphabetic() || *ch == '.' || *ch == '_'
+    // Alpha: `A`..`Z`, `a`..`z`
+    ch.is_ascii_alphabetic() || *ch == '.' || *ch == '_'
 }
 
 fn is_tz_char(ch: &char) -> bool {
